@@ -35,4 +35,16 @@ IEq(a, b) ==
 IHash(x) == IF x.wk THEN <<0, 0, Secs(x)>> ELSE <<x.y, x.mo, Secs(x)>>
 IKey(m, x) == IF x.wk THEN <<7 * x.w, 0, 0>>
               ELSE Norm3(<<x.y * DaysInYear(m, 2001) + x.mo * 30 + x.d, x.h * 3600 + x.mi * 60 + x.s, 0>>)
+
+\* ---- beyond the listed properties: the remaining Duration operations, as the code performs them on the stored form ----
+FloorDiv(x, n) == IF n > 0 THEN x \div n ELSE (-x) \div (-n)          \* Python's // on integers (n # 0)
+IFloorDiv(a, n) == IF a.wk THEN Wk(FloorDiv(a.w, n))
+                   ELSE Un(FloorDiv(a.y, n), FloorDiv(a.mo, n), FloorDiv(a.d, n), FloorDiv(a.h, n), FloorDiv(a.mi, n), FloorDiv(a.s, n))
+IAbs(a) == IF a.wk THEN Wk(Abs(a.w)) ELSE Un(Abs(a.y), Abs(a.mo), Abs(a.d), Abs(a.h), Abs(a.mi), Abs(a.s))
+\* to_weeks keeps only the whole weeks of the DAY field (the docstring warns: "use with caution")
+\* (Duration(weeks=0) is NOT in weeks form: the constructor keeps the unit form unless the week count is non-zero)
+IToWeeks(a) == IF a.wk THEN a ELSE IF a.d \div 7 = 0 THEN Un(0, 0, 0, 0, 0, 0) ELSE Wk(a.d \div 7)
+IBool(a) == IF a.wk THEN a.w # 0 ELSE ~(a.y = 0 /\ a.mo = 0 /\ a.d = 0 /\ a.h = 0 /\ a.mi = 0 /\ a.s = 0)
+Same8(x, e) == x.wk = e.wk /\ (IF e.wk THEN x.w = e.w
+                              ELSE x.y = e.y /\ x.mo = e.mo /\ x.d = e.d /\ x.h = e.h /\ x.mi = e.mi /\ x.s = e.s)
 =============================================================================
